@@ -7,7 +7,7 @@ d=$(mktemp -d /tmp/mutrepo.XXXXXX)
 cp -r /repo/. "$d"/
 if [ -f "$what" ]; then (cd "$d" && patch -s -p1 --fuzz=3 < "$what"); else (cd "$d" && git show "$what" | patch -s -R -p1 --fuzz=3); fi
 set +e
-ONL_REPO="$d" PYTHONPATH="/verif:$d" "$@"
+ONL_REPO="$d" PYTHONPATH="/verif:$d" VERIF_EVIDENCE_DIR="$d/.evidence" VERIF_REPLAY_DIR="replays/mutants" "$@"
 rc=$?
 rm -rf "$d"
 exit $rc
